@@ -390,7 +390,9 @@ def main(argv=None):
 
     describe = dict(
         level="other",
-        rule="bases (6,), (2,3), (3,3); every legal view chain of length <= 2 (thorough: + a fifth of the length-3 chains) over 15 view ops "
+        rule="bases (6,), (2,3), (3,3), (2,1,3) and non-C-ordered (2,3), (3,2), (2,1,3); readers are products or matmul-type ops (whose backward returns a "
+             "view of a temporary); a two-epoch family (v = op1(b), backward, then w = op2(v) with readers on w / v / a view of w, backward: w.grad must be "
+             "the sharing view of v.grad); every legal view chain of length <= 2 (thorough: + a fifth of the length-3 chains) over 15 view ops "
              "(slices, reversed/strided, integer, newaxis, T, reshape, swapaxes, moveaxis, expand_dims, squeeze, diagonal einsum, ...); every "
              "ordered selection of <= 3 readers among base and views (the order in which gradient contributions arrive); optional second "
              "forward/backward on the base only",
